@@ -63,17 +63,20 @@ def spec (s : Shape) (dims : List Int) (keep : Bool) : Option Shape := torchRedu
 end mean_dim
 
 namespace amax
-/-- `aten_amax` / `aten_amin` are scripted: one call node whose body is `ReduceMax(self, dim, keepdims)`. -/
-def model (s : Shape) (dims : List Int) (keep : Bool) : Option Shape := reduceOp s dims keep
+/-- `aten_amax` / `aten_amin` (trace-only since d6091ac): `dim` omitted (`None`) or empty → `ReduceMax(self, keepdims)` without an
+axes input (reduces everything); otherwise `ReduceMax(self, dim, keepdims)` with constant axes. -/
+def model (s : Shape) (dims : Option (List Int)) (keep : Bool) : Option Shape := reduceOp s (dims.getD []) keep
 /-- `torch.amax/amin` refuse a reduction over a zero-size axis. -/
 def specOk (s : Shape) (dims : List Int) : Bool :=
   match dims.mapM (torchDim s.length) with
   | none => false
   | some ax => if ax.isEmpty then numel s != 0 else ax.all (fun a => s.length = 0 || s.getD a 0 != 0)
-def term (name : String) (dims : List Int) (keep : Bool) : String :=
-  tOp ("pkg.onnxscript.torch_lib::" ++ name) ["x0", tInts dims] [("keepdim", tB keep)]
-def spec (s : Shape) (dims : List Int) (keep : Bool) : Option Shape :=
-  if specOk s dims then torchReduce s dims keep else none
+def term (red : String) (dims : Option (List Int)) (keep : Bool) : String :=
+  if (dims.getD []).isEmpty then tOp red ["x0"] [("keepdims", tB keep), ("noop_with_empty_axes", "0")]
+  else tOp red ["x0", tInts (dims.getD [])] [("keepdims", tB keep), ("noop_with_empty_axes", "0")]
+/-- `torch.amax(x, dim=(), keepdim)`: an omitted / empty `dim` reduces everything. -/
+def spec (s : Shape) (dims : Option (List Int)) (keep : Bool) : Option Shape :=
+  if specOk s (dims.getD []) then torchReduce s (dims.getD []) keep else none
 end amax
 
 namespace all_
@@ -105,7 +108,7 @@ def model (s : Shape) (dims : Option (List Int)) (keep : Bool) : Option Shape :=
   | some ds =>
     match ds.foldlM (fun acc d => reduceDyn acc [d] true) s with
     | none => none
-    | some r => if keep then some r else squeezeOp r ds
+    | some r => if keep ∨ s.length = 0 then some r else squeezeOp r ds   -- fix f89de7f: no Squeeze on a 0-d input
 def term (red : String) (r : Nat) (dims : Option (List Int)) (keep : Bool) : String :=
   match dims with
   | none =>
@@ -115,7 +118,7 @@ def term (red : String) (r : Nat) (dims : Option (List Int)) (keep : Bool) : Str
   | some [] => tOp "Cast" ["x0"] [("to", "9")]
   | some ds =>
     let body := ds.foldl (fun acc d => all_dim.termOn red acc d true) "x0"
-    if keep then body else tOp "Squeeze" [body, tInts ds]
+    if keep ∨ r = 0 then body else tOp "Squeeze" [body, tInts ds]
 /-- `aten::all.dims(x, int[]? dim=None)`: `None` reduces everything; an explicit empty list reduces
 nothing (`allow_empty_dims` in ReduceOps.cpp). -/
 def spec (s : Shape) (dims : Option (List Int)) (keep : Bool) : Option Shape :=
@@ -179,9 +182,12 @@ def spec (_ : Shape) : Option Shape := some []
 end prod
 
 namespace prod_dim
-def model (s : Shape) (dim : Int) (keep : Bool) : Option Shape := reduceOp s [dim] keep
-def term (dim : Int) (keep : Bool) : String :=
-  tOp "ReduceProd" ["x0", tInts [dim]] [("keepdims", tB keep), ("noop_with_empty_axes", "0")]
+/-- fix f89de7f: a 0-d input returns `Identity(self)` (ONNX rejects every axis for rank 0). -/
+def model (s : Shape) (dim : Int) (keep : Bool) : Option Shape :=
+  if s.length = 0 then some s else reduceOp s [dim] keep
+def term (r : Nat) (dim : Int) (keep : Bool) : String :=
+  if r = 0 then tOp "Identity" ["x0"]
+  else tOp "ReduceProd" ["x0", tInts [dim]] [("keepdims", tB keep), ("noop_with_empty_axes", "0")]
 def spec (s : Shape) (dim : Int) (keep : Bool) : Option Shape := torchReduce s [dim] keep
 end prod_dim
 
